@@ -116,8 +116,11 @@ CallVerdict(s, idp, ct) ==
       [] ct = "own" /\ now - st[s].born >= TTL -> "expired"
       [] OTHER                             -> "ok"
 
+ProbeOpts == {"probe_own", "probe_absent"}
+
 Continue(i, mr, idp, s, cm, ct) ==
     /\ Budget /\ Live(s) /\ st[s].n < MaxTurns
+    /\ ct \notin ProbeOpts
     /\ (ct = "other") => (\E o \in Streams : o # s)
     /\ LET cv == CursorVerdict(s, idp, cm)
            g == Get(cache[i], s, idp)
@@ -146,6 +149,30 @@ Continue(i, mr, idp, s, cm, ct) ==
                   <<"Continue", dec, cm, ct, idp = st[s].id, mr = st[s].m, hit,
                     now - st[s].at >= TTL, now - st[s].born >= TTL, st[s].m, i>>)
 
+(* The call-token layer alone (resolveCall: the call-state cache, then the call token), reached    *)
+(* with the owner's cursor already opened.  Over HTTP the cursor layer runs first and no identity  *)
+(* but the owner gets this far; C13 binds the call token AND the cache key to the presenting       *)
+(* identity as well, "with the call-state cache in any state", and only here does that show.       *)
+(* Enabled by the call options "probe_own" / "probe_absent" of a cfg.                              *)
+ProbeCall(i, idp, s, ct) ==
+    /\ Budget /\ Live(s) /\ ct \in ProbeOpts
+    /\ now - st[s].at < TTL                    \* the owner's cursor still opens
+    /\ LET g == Get(cache[i], s, idp)
+           hit == g[1]
+           lv == IF hit THEN "ok"
+                 ELSE IF ct = "probe_absent" THEN "missing_call"
+                 ELSE IF idp # st[s].id THEN "sig"            \* AAD binds the identity
+                 ELSE IF now - st[s].born >= TTL THEN "expired"
+                 ELSE "ok"
+       IN
+       /\ cache' = IF hit \/ lv # "ok" THEN [cache EXCEPT ![i] = g[2]]
+                   ELSE [cache EXCEPT ![i] = Put(g[2], s, idp, EntryLast(st[s].born, now))]
+       /\ UNCHANGED <<st, now>>
+       /\ RecordC([a |-> "ProbeCall",
+                  args |-> [inst |-> i, id |-> idp, s |-> s, ct |-> ct],
+                  exp |-> [dec |-> lv, accepted |-> (lv = "ok"), hit |-> hit]],
+                  <<"ProbeCall", lv, ct, idp = st[s].id, hit, now - st[s].born >= TTL, i>>)
+
 ASSUME TLCSet(1, {})
 
 Init ==
@@ -161,6 +188,7 @@ Next ==
     \/ \E s \in Streams, i \in Inst, m \in Meths, id \in Idents : InitStream(s, i, m, id)
     \/ \E i \in Inst, mr \in Meths, idp \in Idents, s \in Streams, cm \in CursorMuts, ct \in CallOpts :
           Continue(i, mr, idp, s, cm, ct)
+    \/ \E i \in Inst, idp \in Idents, s \in Streams, ct \in CallOpts \cap ProbeOpts : ProbeCall(i, idp, s, ct)
 
 Spec == Init /\ [][Next]_vars
 
@@ -180,6 +208,10 @@ NoForgedAccept ==
 
 \* C13: a token minted for one identity is refused for any other
 IdentityBound == [][ (IsCont /\ Last.exp.accepted) => A.id = S.id ]_vars
+
+\* ... at the call-token layer too, whatever the caches hold
+CallLayerBound ==
+    [][ (hist' # hist /\ Last.a = "ProbeCall" /\ Last.exp.accepted) => A.id = S.id ]_vars
 
 \* C14: a continuation token only resumes the method that minted it
 MethodBinding == [][ (IsCont /\ Last.exp.accepted) => A.route = S.m ]_vars
